@@ -574,6 +574,27 @@ func (u *Unit) applyFrame(st *State, c *FuncContract, env *SpecEnv, args []Val, 
 		u.bumpAlloc(st) // allocation is not an observable effect
 		return
 	}
+	// monotone ghost variables: any call that is not pure may have advanced them
+	for _, name := range sortedKeys(u.eng.cs.Monotone) {
+		old := u.heapGet(st, "G_"+name, "Int")
+		listed := false
+		for _, m := range c.Modifies {
+			if m.Kind == SIdent && m.Name == name {
+				listed = true
+			}
+		}
+		if !listed && c.HasMod && !c.ModAll {
+			u.heapHavoc(st, "G_"+name, "Int")
+			if st.discover != nil {
+				st.discover.noteWhole("G_"+name, "Int")
+			}
+			st.assume(fmt.Sprintf("(>= %s %s)", u.heapGet(st, "G_"+name, "Int"), old))
+		} else {
+			defer func(name string, old Term) {
+				st.assume(fmt.Sprintf("(>= %s %s)", u.heapGet(st, "G_"+name, "Int"), old))
+			}(name, old)
+		}
+	}
 	if !c.HasMod {
 		u.havocReachableArgs(st, args, pos)
 		u.havocGhostVars(st, pos)
@@ -692,6 +713,9 @@ func (u *Unit) frameCheck(st *State, locs []loc, pos token.Pos) {
 func (u *Unit) frameCheckGhost(st *State, comp string, pos token.Pos) {
 	c := u.contract
 	if !c.HasMod || c.ModAll || c.NoFrame || st.discover != nil {
+		return
+	}
+	if u.eng.cs.Monotone[strings.TrimPrefix(comp, "G_")] {
 		return
 	}
 	for _, m := range c.Modifies {
@@ -956,6 +980,9 @@ func (u *Unit) callSiteClauses(st *State, fr *Frame, calleeName string, args []V
 		env := u.loopEnv(st, fr, fr.block)
 		for i, a := range args {
 			env.vars[fmt.Sprintf("$arg%d", i)] = a
+		}
+		if fr.curLoop != nil {
+			env.atHead = fr.curLoop.atHead // athead(e): e when the current iteration of the enclosing loop started
 		}
 		u.goalEval = true
 		t, err := u.evalBool(st, env, cs.Clause.Expr)
